@@ -252,6 +252,13 @@ func (w *world) extend(isScene bool) {
 	w.push(b, cur)
 }
 
+// badRoot is canonical block i with a wrong PrevStateRoot, signed by its designated validators.
+func (w *world) badRoot(i int) *block.Block {
+	bad := clone(w.blocks[i])
+	bad.PrevStateRoot[5] ^= 0x40
+	return seal(bad, w.signer[i], w.magic)
+}
+
 // ---- corruption --------------------------------------------------------------------------------------------------------
 
 // offer is a concrete corrupted (or valid) block ready to be handed to a node.
@@ -327,6 +334,13 @@ func (w *world) corrupt(base int, kind, family string, r *rand.Rand) *offer {
 	case "on_chain":
 		raw := w.raws[base-1]
 		of.raw, of.base = raw, base
+		return of
+	case "badroot_next":
+		raw, err := wire(w.badRoot(base + 1))
+		if err != nil {
+			return nil
+		}
+		of.raw, of.base = raw, base+1
 		return of
 	case "idx_minus1":
 		b.Index = tip.Index
@@ -419,6 +433,12 @@ func (w *world) corrupt(base int, kind, family string, r *rand.Rand) *offer {
 	case "tx_drop":
 		i := r.Intn(n)
 		b.Transactions = slices.Delete(b.Transactions, i, i+1)
+		finishTxs()
+	case "tx_drop_all":
+		if n == 0 {
+			return nil
+		}
+		b.Transactions = nil
 		finishTxs()
 	case "tx_dup":
 		i := r.Intn(n - 1) // never the last one: that is tx_dup_last_odd
